@@ -302,6 +302,10 @@ def cases(rng, tier):
             # disappears there
             if refuses or rng.random() < 0.15:
                 out.append(dec_case(rng, ctx, p, O, f, tag + ':release', script=script, nontrivial=n >= 2, profile='release'))
+        if n in (2, 3) and kind != 'random':
+            pw = rng.choice([2147483647, 4294967291, 4294967311, 9223372036854775783, 18446744073709551557])
+            if idx % pw and D % pw:
+                out.append(dec_case(rng, ctx, pw, O, f, 'p-word-boundary:%s:deg%d' % (shape_tag(shape_mod_p(f, pw), n), n)))
         if n >= 2 and (kind != 'random' or rng.random() < 0.5):
             out.append(dec_case(rng, ctx, P_BIG, O, f, 'p>2^64:%s:deg%d' % (shape_tag(shape_mod_p(f, P_BIG), n), n)))
     # ---- CLI: the binary computes the maximal order itself; the model gets the same order as an input
